@@ -1,11 +1,25 @@
-(** * Quiet: property C02 (completeness of collect_cycles), pass level.
+(** * Quiet: property C02 (completeness of collect_cycles).
 
     - [ProgReach m o], [Covered P m o], [Pinned P m o]: propositional readings (inductive
-      reachability) of the three closures computed by [Cover.cover_b]; [Cover P m] is the
+      reachability, [Reach]) of the three closures computed by [Cover.cover_b]; [Cover P m] is the
       propositional I-cover and [cover_sound : cover_b P m = true -> Cover P m].
-    - [C02_quiet_pass]: from a state with EXACT counts ([SInv K true [] [] m]), the buffer
-      invariant and [Cover P m], a completed tracing pass puts into its list [L] every
-      allocated live object outside the dying set that is neither program-reachable nor pinned.
+      [QuietClosure_iff]: on a graph whose nodes are heap indices the checker's bounded iteration
+      (fuel [S (length (heap m))]) computes exactly the reachability closure, hence the relations
+      are decidable under [SInv] ([ProgReach_dec], [Pinned_dec], [prog_reach_b_spec], [pinned_b_spec]).
+    - [C02_quiet_pass] / [quiet_pass_gen] / [quiet_pass_pos]: from a state with EXACT counts
+      ([SInv K true [] [] m]), the buffer invariant and [Cover P m], a completed tracing pass puts
+      into its list [L] every allocated live object outside the dying set that is neither
+      program-reachable nor pinned.
+    - [C02_quiet] / [C02_quiet_pos] / [C02_quiet_cover] / [C02_quiet_prog]: machine level.  A
+      [collect_cycles()] ([run K P n KCollectCycles m]) that returns normally and is [quiet]
+      (no [ECb KFin/KDrop/KAction] and no [EFree] event logged) leaves the object graph unchanged
+      ([gsim]), the buffer empty, [st_alloc = bytes], and every allocated live object is in the
+      dying set, program-reachable or pinned.  Hypotheses on the start state: [SInv] exact,
+      [Ibuf], [Cover P m] (the history half, NOT proved inductive: see QuietCover.v) and
+      [MapsOwned m] (no allocated live CleanerMap has strong count 0; also a history fact,
+      not in [SInv]: it excludes a buffered, unowned CleanerMap, whose empty library finalizer
+      is run silently by the finalization pass).
+    - [C02_bytes]: [st_alloc m = bytes K m] in every program state.
 
     NOTE on [Pinned].  The roots of [Pinned] ([PinRoot]) are the targets of every stored strong
     handle that [Trace::trace] does not report: a handle is *reported* iff it sits in a field
@@ -15,8 +29,10 @@
     still stored in a freed or never-allocated box are roots here.  The widening is necessary:
     [SInv] does not exclude a freed (dropped) box whose field still holds a counted handle, and
     in such a state the target is kept alive by that handle (its strong count exceeds what the
-    pass can count).  [PinRoot_strict] shows that the two notions coincide in every state in
-    which freed and never-allocated boxes hold no handles ([NoStale]). *)
+    pass can count), although it is neither program-reachable nor in the checker's pinned set.
+    [Pinned_strict] shows that the two notions coincide (up to program-reachability) in every
+    state in which boxes that are not allocated hold no handle except the values moved out by
+    try_unwrap ([NoStale], checkable by [no_stale_b]). *)
 From Coq Require Import NArith Bool List Lia.
 From stdpp Require Import base list option list_numbers.
 From RecordUpdate Require Import RecordSet.
@@ -1004,3 +1020,94 @@ Section Prog.
     Buf.clean m -> st_alloc m = BufBase.bytes K m.
   Proof. intros m C. apply (Buf.Ibuf_spec K [] m (Buf.prog_buf K P fuel cmds C)). Qed.
 End Prog.
+
+(** ** [Pinned] versus the checker's [pin_targets]: they coincide when boxes that are not
+    allocated (freed, never allocated) hold no handle, except the values moved out by
+    try_unwrap, whose handles are program roots *)
+Section Strict.
+  Context (P : prog).
+  Implicit Types (m : machine) (o p t : id) (x : obj).
+
+  Definition NoStale m : Prop :=
+    forall p x, get m p = Some x -> o_box x <> BAlloc ->
+      strong_targets x = [] \/ exists v, values m !! v = Some (Some p).
+
+  (** the checker's pinned closure, propositionally *)
+  Definition PinnedS m o : Prop := Reach (all_succ m) (fun r => r ∈ pin_targets P m ++ dead m) o.
+
+  Lemma PinnedS_Pinned m o : PinnedS m o -> Pinned P m o.
+  Proof.
+    intros H. apply Reach_trans. revert H. apply Reach_mono. intros r Hr.
+    apply elem_of_app in Hr as [Hr|Hr]; [apply pin_targets_Pinned, Hr | apply Reach_root, PR_dead, Hr].
+  Qed.
+
+  Lemma unreported_field m p x j t :
+    o_fields x !! j = Some (Some t) -> ~ reported P x j -> o_box x = BAlloc -> t ∈ unreported P m p x.
+  Proof.
+    intros Hj Hn Hb.
+    assert (Hst : t ∈ strong_targets x) by (apply strong_targets_elem; eauto).
+    unfold unreported. destruct (o_ismap x) eqn:Em; [exact Hst|].
+    destruct (o_vst x) eqn:Ev; try exact Hst. destruct (o_borrowed x) eqn:Ebo; [exact Hst|].
+    apply elem_of_app. left. apply elem_of_list_omap. exists (Some t, false). split; [|reflexivity].
+    apply elem_of_list_lookup. exists j. apply lookup_zip_with_Some. exists (Some t), j.
+    split; [|split; [exact Hj | apply lookup_seq; split; [reflexivity | eapply lookup_lt_Some, Hj]]].
+    f_equal. fold (class_of P (o_cls x)).
+    destruct (c_traced (class_of P (o_cls x)) !! j) as [[|]|] eqn:Et; try reflexivity.
+    exfalso. apply Hn. repeat split; assumption.
+  Qed.
+  Lemma unreported_cleaner m p x t : o_cleaner x = Some t -> t ∈ unreported P m p x.
+  Proof.
+    intros Hc.
+    assert (Hst : t ∈ strong_targets x) by (apply strong_targets_elem; eauto).
+    unfold unreported. destruct (o_ismap x); [exact Hst|]. destruct (o_vst x); try exact Hst.
+    destruct (o_borrowed x); [exact Hst|]. apply elem_of_app. right. rewrite Hc. apply elem_of_list_singleton. reflexivity.
+  Qed.
+  Lemma pin_targets_intro m p x t : get m p = Some x -> o_box x = BAlloc -> t ∈ unreported P m p x -> t ∈ pin_targets P m.
+  Proof.
+    intros Hx Hb Ht. unfold pin_targets. apply elem_of_list_In, in_concat. eexists. split.
+    - apply elem_of_list_In, elem_of_lookup_imap. exists p, x. split; [reflexivity | exact Hx].
+    - rewrite Hb. apply elem_of_list_In, elem_of_app. left. exact Ht.
+  Qed.
+  Lemma stale_prog_root m p x t :
+    NoStale m -> get m p = Some x -> o_box x <> BAlloc -> t ∈ strong_targets x -> t ∈ prog_roots m.
+  Proof.
+    intros HN Hx Hb Ht. destruct (HN p x Hx Hb) as [Hnil|[v Hv]]; [rewrite Hnil in Ht; inversion Ht|].
+    unfold prog_roots. rewrite !elem_of_app. right; right. apply elem_of_list_In, in_concat.
+    exists (all_succ m p). split; [|apply elem_of_list_In; rewrite (all_succ_get m p x Hx); exact Ht].
+    apply elem_of_list_In, elem_of_list_omap. exists (Some p). split; [eapply elem_of_list_lookup_2, Hv | reflexivity].
+  Qed.
+
+  Theorem Pinned_strict m o : NoStale m -> Pinned P m o -> ProgReach m o \/ PinnedS m o.
+  Proof.
+    intros HN. induction 1 as [r Hr|p c _ IH Hc].
+    - destruct Hr as [p x j t Hx Hj Hn|p x t Hx Hc|t Hd].
+      + destruct (o_box x) eqn:Eb.
+        * left. apply Reach_root. eapply stale_prog_root; eauto; [congruence | apply strong_targets_elem; eauto].
+        * right. apply Reach_root, elem_of_app. left. eapply pin_targets_intro; eauto. eapply unreported_field; eauto.
+        * left. apply Reach_root. eapply stale_prog_root; eauto; [congruence | apply strong_targets_elem; eauto].
+      + destruct (o_box x) eqn:Eb.
+        * left. apply Reach_root. eapply stale_prog_root; eauto; [congruence | apply strong_targets_elem; eauto].
+        * right. apply Reach_root, elem_of_app. left. eapply pin_targets_intro; eauto. eapply unreported_cleaner; eauto.
+        * left. apply Reach_root. eapply stale_prog_root; eauto; [congruence | apply strong_targets_elem; eauto].
+      + right. apply Reach_root, elem_of_app. right. exact Hd.
+    - destruct IH as [IH|IH]; [left | right]; eapply Reach_step; eauto.
+  Qed.
+
+  (** [NoStale], as a boolean *)
+  Definition no_stale_b m : bool :=
+    forallb (fun '(p, x) =>
+      match o_box x with
+      | BAlloc => true
+      | _ => match strong_targets x with [] => true | _ => existsb (fun v => match v with Some q => Nat.eqb q p | None => false end) (values m) end
+      end) (imap (fun p x => (p, x)) (heap m)).
+  Lemma no_stale_sound m : no_stale_b m = true -> NoStale m.
+  Proof.
+    unfold no_stale_b. rewrite forallb_forall. intros H p x Hx Hb. specialize (H (p, x)). cbv beta iota in H.
+    assert (Hin : In (p, x) (imap (fun p x => (p, x)) (heap m))) by (apply elem_of_list_In, elem_of_lookup_imap; eauto).
+    specialize (H Hin). destruct (o_box x); try congruence.
+    - destruct (strong_targets x); [auto|]. right. apply existsb_exists in H as ([q|] & Hq & He); [|discriminate].
+      apply Nat.eqb_eq in He. subst q. apply elem_of_list_In, elem_of_list_lookup in Hq. exact Hq.
+    - destruct (strong_targets x); [auto|]. right. apply existsb_exists in H as ([q|] & Hq & He); [|discriminate].
+      apply Nat.eqb_eq in He. subst q. apply elem_of_list_In, elem_of_list_lookup in Hq. exact Hq.
+  Qed.
+End Strict.
